@@ -3,7 +3,7 @@
 
 use crate::refcbor::{self, Value};
 use crate::respmodel::*;
-use crate::run::{bit, CaseResult, Ctx, Fail, Gen, Obs};
+use crate::run::{idx, bit, CaseResult, Ctx, Fail, Gen, Obs};
 use crate::util::{hex, Src};
 use serde_json::json;
 
@@ -268,8 +268,61 @@ fn m_uint(src: &mut Src, obs: &mut Obs) -> CaseResult {
 }
 pub const M_UINT: Gen = Gen { name: "c02_uint", f: m_uint };
 
+/// every length of every freely sizeable byte / text member of the all-members-present response.
+/// words: [kind, leaf selector (raw), length (raw)]
+fn len_case(mode: Mode, src: &mut Src, obs: &mut Obs) -> CaseResult {
+    let kind = KINDS[src.below(KINDS.len())];
+    let li = src.word() as usize;
+    let len = src.word() as usize;
+    let mut model = full_model(kind);
+    let leaves = string_leaves(&model);
+    if leaves.is_empty() {
+        obs.label("length-sweep:not-applicable");
+        return Ok(());
+    }
+    let path = leaves[li % leaves.len()].clone();
+    set_leaf_len(&mut model, &path, len % 4096);
+    if build(kind, &model).is_err() {
+        obs.label("length-sweep:not-applicable");
+        return Ok(());
+    }
+    obs.label("length-sweep");
+    let info = RInfo { present: 2, absent: 1, ..RInfo::default() };
+    resp_check(kind, mode, &model, info, obs)
+}
+fn m_len(s: &mut Src, o: &mut Obs) -> CaseResult {
+    len_case(Mode::Members, s, o)
+}
+fn k_len(s: &mut Src, o: &mut Obs) -> CaseResult {
+    len_case(Mode::Canonical, s, o)
+}
+pub const M_LEN: Gen = Gen { name: "c02_len", f: m_len };
+pub const K_LEN: Gen = Gen { name: "c03_len", f: k_len };
+
+/// enumerate (kind, leaf, length) for every freely sizeable leaf and every length 0..=max
+pub fn run_len_sweep(ctx: &mut Ctx, mode: Mode) {
+    let g = if mode == Mode::Members { M_LEN } else { K_LEN };
+    let mut total = 0usize;
+    for (ki, kind) in KINDS.iter().enumerate() {
+        let model = full_model(*kind);
+        let leaves = string_leaves(&model);
+        for (li, path) in leaves.iter().enumerate() {
+            let Some(max) = max_leaf_len(*kind, &model, path) else { continue };
+            // quick: every length up to 300 and around every head-width change, every 7th beyond
+            let quick = ctx.quick();
+            let lens: Vec<Vec<u32>> = (0..=max)
+                .filter(|l| !quick || *l <= 300 || *l % 7 == 0 || max - *l <= 2 || (1022..=1026).contains(l))
+                .map(|l| vec![idx(ki, KINDS.len()), li as u32, l as u32])
+                .collect();
+            total += lens.len();
+            ctx.enumerate(&g, lens.into_iter());
+        }
+    }
+    ctx.exhaustive.push(format!("every length 0..=max of every freely sizeable byte/text member of the all-members response of every kind ({} cases; quick: every length <= 300, every 7th beyond)", total));
+}
+
 pub fn gens() -> Vec<Gen> {
-    vec![M_UINT, M_GI, M_MC, M_GA, M_GN, M_CP, M_CM, M_LB, M_RS, M_SE, M_VE, M_CONCRETE]
+    vec![M_UINT, M_LEN, M_GI, M_MC, M_GA, M_GN, M_CP, M_CM, M_LB, M_RS, M_SE, M_VE, M_CONCRETE]
 }
 
 /// every subset of k flags when 2^k is enumerable, else none + singletons + pairs + full
@@ -371,7 +424,7 @@ pub fn presence_prefixes(kind: Kind) -> Vec<Vec<u32>> {
     out
 }
 
-pub const RULE: &str = "Responses are described by a reference-CBOR map built from the specification's response key tables; the real ctap-types value is constructed from that description through the public API only (builders, Default, pub-field assignment), serialised with Response::serialize into a 7609-byte buffer and parsed by the independent reference parser. Every subset of optional members is enumerated where 2^k <= 4096 (MakeCredential, GetAssertion, ClientPin, CredentialManagement, LargeBlobs, GetInfo without get-info-full, option ids, certifications); none/singletons/all pairs/full otherwise (GetInfo and option ids under get-info-full); nested presence combinations, both attestation statement shapes and all four COSE key kinds are enumerated; proptest supplies member values (lattice + random) and additional free cases. Oracle: output = 0x00 || exactly one map equal to the description under order-insensitive comparison with duplicate and null detection, or 0x00 alone when nothing is set / the kind has no parameters; GetNextAssertion(r) == GetAssertion(r). Non-trivial: >=1 optional member set and >=1 unset, or a nested map present; distinct by (kind, canonical rendering of the description).";
+pub const RULE: &str = "Responses are described by a reference-CBOR map built from the specification's response key tables; the real ctap-types value is constructed from that description through the public API only (builders, Default, pub-field assignment), serialised with Response::serialize into a 7609-byte buffer and parsed by the independent reference parser. Every subset of optional members is enumerated where 2^k <= 4096 (MakeCredential, GetAssertion, ClientPin, CredentialManagement, LargeBlobs, GetInfo without get-info-full, option ids, certifications); none/singletons/all pairs/full otherwise (GetInfo and option ids under get-info-full); nested presence combinations, both attestation statement shapes and all four COSE key kinds are enumerated; proptest supplies member values (lattice + random) and additional free cases. Oracle: output = 0x00 || exactly one map equal to the description under order-insensitive comparison with duplicate and null detection, or 0x00 alone when nothing is set / the kind has no parameters; GetNextAssertion(r) == GetAssertion(r); serialising twice / into a dirty buffer / after travelling through call_ctap2 or Rpc::call as an echoing authenticator's answer gives the same bytes. In addition: every value 0..=4200 and around every power of two through every unsigned member; every length 0..=max of every freely sizeable byte/text member of the all-members response of every kind; GetInfo values equal to (or one step from) Response::default(); algorithm lists with arbitrary identifiers in the public alg field; equal-content relations between members. Non-trivial: >=1 optional member set and >=1 unset, or a nested map present; distinct by (kind, canonical rendering of the description).";
 pub const ASSUMPTIONS: &[&str] = &[
     "respmodel.rs key tables transcribe the CTAP 2.1/2.2 response tables; enum spellings come from the specification",
     "refcbor strict parser is correct (guarded by `ctv selftest`)",
@@ -401,6 +454,7 @@ pub fn run_mode(ctx: &mut Ctx, mode: Mode) {
 
 pub fn run(ctx: &mut Ctx) {
     run_mode(ctx, Mode::Members);
+    run_len_sweep(ctx, Mode::Members);
     // every value 0..=4200 and 2^k-1, 2^k, 2^k+1 through every unsigned member (quick: every 3rd)
     let n_members = getinfo_optional().iter().filter(|(_, k)| *k == GiKind::Uint).count() + 4;
     let mut vals: Vec<u32> = (0..=4200u32).collect();
@@ -418,7 +472,7 @@ pub fn run(ctx: &mut Ctx) {
         "GetInfo", "MakeCredential", "GetAssertion", "GetNextAssertion", "ClientPin", "CredentialManagement",
         "LargeBlobs", "Reset", "Selection", "Vendor", "empty-body", "attStmt:none", "attStmt:packed",
         "attStmt:packed+x5c", "cose:P256", "cose:EcdhEsHkdf256", "cose:Ed25519", "cose:Totp",
-        "rp-icon-set-not-emitted", "uint-sweep",
+        "rp-icon-set-not-emitted", "uint-sweep", "length-sweep", "algorithms:any-identifier", "getinfo:default-value",
     ];
     if GIF {
         req.push("getinfo:uint>u32");
